@@ -80,7 +80,7 @@ impl Prop for C12P {
     }
     fn units(&self, tier: Tier) -> Vec<String> {
         let mut v = Vec::new();
-        for (c, r) in shapes(tier.pick(6, 8)) {
+        for (c, r) in shapes(tier.pick(6, 12)) {
             for tag in ["T", "U", "Z"] {
                 v.push(format!("{} {}x{}", tag, c, r));
             }
@@ -138,7 +138,7 @@ impl Prop for C12P {
             .into()
     }
     fn bound(&self, tier: Tier) -> String {
-        format!("shapes up to {0}x{0}", tier.pick(6, 8))
+        format!("shapes up to {0}x{0}", tier.pick(6, 12))
     }
     fn assumptions(&self) -> Vec<String> {
         vec!["leaked elements are never reported (the property allows the array to lose elements)".into()]
